@@ -25,7 +25,7 @@ TEvaluate ==
           ELSE IF k = cfg.failAt /\ cfg.fclass = "exc" THEN
                (IF e.delivered THEN Stop("results_delivered_for_raising_evaluator") ELSE Evaluate /\ l' = l + 1 /\ UNCHANGED <<tid, verdict>>)
           ELSE IF ~e.delivered THEN Stop(IF Fails(k, cfg.reqs[k]) THEN "failing_results_not_delivered" ELSE "results_not_delivered")
-          ELSE IF ~(k = cfg.failAt /\ cfg.fclass = "allnan") /\ e.failed # Fails(k, cfg.reqs[k]) THEN Stop(IF e.failed THEN "unexpected_failure_reported" ELSE "failure_not_reported")
+          ELSE IF ~(k = cfg.failAt /\ cfg.fclass \in {"allnan", "allnanpert"}) /\ e.failed # Fails(k, cfg.reqs[k]) THEN Stop(IF e.failed THEN "unexpected_failure_reported" ELSE "failure_not_reported")
           ELSE Evaluate /\ l' = l + 1 /\ UNCHANGED <<tid, verdict>>
 TDone ==
   /\ verdict = "ok" /\ phase = "done"
